@@ -262,6 +262,15 @@ func stack(t *rapid.T, rt bool) *Built {
 		tc := &layers.TCP{SrcPort: layers.TCPPort(genPort(t, rt, "sport")), DstPort: layers.TCPPort(genPort(t, rt, "dport")),
 			Seq: rapid.Uint32().Draw(t, "seq"), Ack: rapid.Uint32().Draw(t, "ack"), Window: rapid.Uint16().Draw(t, "win"), Urgent: rapid.Uint16().Draw(t, "urg"),
 			SYN: rapid.Bool().Draw(t, "syn"), ACK: rapid.Bool().Draw(t, "ackf"), PSH: rapid.Bool().Draw(t, "psh"), FIN: rapid.Bool().Draw(t, "fin"), Options: TCPOptions(t)}
+		if !rt && rapid.IntRange(0, 4).Draw(t, "mptcp") == 0 {
+			// a Multipath TCP option (kind 30) of any subtype, often shorter than its subtype needs
+			d := rapid.SliceOfN(rapid.Byte(), 0, 18).Draw(t, "mptcpdata")
+			if len(d) > 0 {
+				d[0] = byte(rapid.IntRange(0, 9).Draw(t, "mpsub"))<<4 | d[0]&0x0f
+			}
+			tc.Options = append(tc.Options, layers.TCPOption{OptionType: 30, OptionLength: uint8(2 + len(d)), OptionData: d})
+			b.Desc = append(b.Desc, "tcp-mptcp")
+		}
 		eol := rapid.IntRange(0, 3).Draw(t, "tcpeol") == 0 // the list ends with an explicit End-of-Option-List entry
 		if rt {
 			n := 0
